@@ -19,6 +19,7 @@ Operations (all associative, all but one non-commutative):
   perm   composition of permutations of k points
   left / right / rect   left-zero, right-zero and rectangular bands (idempotent, non-commutative)
   mmc    (min, max, count) triples (commutative control)
+For 'str' accumulate is also called without f (default operator.add, as in itertools).
 Initial value: absent, a value of the operation, or the object None (documented: "possibly equal to
 None"); for None the operation gets None adjoined as an identity element (still associative).
 """
@@ -252,6 +253,14 @@ def check_one(name, items, initial, fn, method, no_prss, form):
             if iter(res) is not res or not hasattr(res, '__next__'):
                 return f'{tag}: accumulate did not return an iterator but {type(res).__name__}', n
             got = list(res)
+            if name == 'str' and initial[0] != 'none':
+                # default function (operator.add, as for itertools.accumulate) on the raw strings
+                kw2 = {'initial': initial[1]} if initial[0] == 'val' else {}
+                if method is not None:
+                    kw2['method'] = method
+                got2 = list(mpctools.accumulate(_form(list(items), form), **kw2))
+                if got2 != want:
+                    return f'{tag}: with the default function the output differs from itertools.accumulate', n
         finally:
             mpctools.runtime = saved
         gv = [x.v if isinstance(x, _D) else x for x in got]
@@ -293,7 +302,7 @@ VARIANTS = [('reduce', None, False), ('acc', 'Brent-Kung', False), ('acc', 'Skla
 # ---------------------------------------------------------------- cases
 
 def budget(tier):
-    return dict(shards=16, examples=250 if tier == 'quick' else 5000)
+    return dict(shards=16, examples=250 if tier == 'quick' else 2500)
 
 
 def enumerate_cases(tier):
@@ -311,7 +320,7 @@ _LENS = [0, 1, 2, 3, 4, 5, 7, 8, 9, 15, 16, 17, 31, 32, 33, 63, 64, 65, 127, 128
 @st.composite
 def _items(draw, op, n):
     if op == 'seg':
-        kind = draw(st.sampled_from(['chain', 'chain', 'chain', 'broken', 'random']))
+        kind = draw(st.sampled_from(['chain', 'chain', 'chain', 'broken', 'random' if n <= 64 else 'broken']))
         s = draw(st.integers(-5, 5))
         xs = [[s + i, s + i + 1] for i in range(n)]
         if kind == 'broken' and n:
